@@ -26,7 +26,7 @@ ASSUMPTIONS = [
     "sequences are chained in one application instance separated by a successful feed (which clears the count); the reference counter runs along",
     "command payload schemas inside the NCP model are bellows' own tables",
 ]
-PROBES = ["counters.zero", "counters.sat", "counters.mixed", "feed.V", "feed.S", "feed.T", "feed.E", "feed.T2", "feed.E2", "raised", "raised_again_on_6th", "read_and_clear_used", "loop_connection_lost", "loop_survived_4_failures",
+PROBES = ["sibling_application_constructed", "counters.zero", "counters.sat", "counters.mixed", "feed.V", "feed.S", "feed.T", "feed.E", "feed.T2", "feed.E2", "raised", "raised_again_on_6th", "read_and_clear_used", "loop_connection_lost", "loop_survived_4_failures",
           "v4_nop", "success_after_4_failures", "noise.incoming_message", "noise.command_ok", "noise.join", "noise.stack_status", "noise.route_error"]
 
 from ..ncpmodel import St as St_  # noqa: E402
@@ -52,6 +52,10 @@ def plan(tier):
     for V in (4, 8, 14):
         for pre in itertools.product("TE", repeat=2):
             sweeps.append(("enum", {"V": V, "prefix": "".join(pre), "k": k, "alpha": "STE", "noise": True, "sched": False}))
+    # a second application object is constructed in the process in the middle of the sequence
+    for V in (4, 8):
+        for pre in itertools.product("TE", repeat=2):
+            sweeps.append(("enum", {"V": V, "prefix": "".join(pre), "k": k, "alpha": "STE", "sibling": True, "sched": False}))
     # the counters the keep-alive reads are saturated (0xFFFF) or large: their VALUES steer nothing
     for V in (8, 14):
         for pre in itertools.product("ST", repeat=2):
@@ -138,7 +142,17 @@ def run(scenario, params, tape, detail=False):
         ref["fails"] += 1
         return cmd, ref["fails"] > MAXF
 
+    nfeeds = [0]
+
     async def feed(app, outcome, label):
+        nfeeds[0] += 1
+        if params.get("sibling") and nfeeds[0] in (3, 5):
+            # another ControllerApplication object comes to life in the same process (a second radio being set up): this one's streak and
+            # feed counter are its own
+            import zigpy.config as zc
+
+            probe("sibling_application_constructed")
+            appmod.ControllerApplication({zc.CONF_DEVICE: {zc.CONF_DEVICE_PATH: "/dev/ttySIBLING"}, "use_thread": False})
         cur["outcome"] = outcome
         cur["cmds"] = []
         probe("feed." + outcome)
